@@ -169,24 +169,34 @@ def render(frag, name, rng=None, noise_p=0.0, renamed=False, shift=0, ind=0):
 PLACES = ["same_file", "other_file", "other_dir"]
 
 # Where a copy may stand: at the top level or nested in a compound statement.  Fragment extraction
-# (extractFragmentsRecursive) walks Children, Body and Orelse only.
+# (extractFragmentsRecursive) walks Children, Body, Orelse, Handlers and Finalbody.  The copy is indented one level
+# deeper than the last header line.
 WRAPS = {
     "except": ["try:", "    import fastpath", "except ImportError:"],
     "finally": ["try:", "    import fastpath", "finally:"],
+    "exceptstar": ["try:", "    import fastpath", "except* ImportError:"],
+    "except2": ["try:", "    import fastpath", "except ImportError:", "    fastpath = None", "except (OSError, ValueError) as exc:"],
+    "finally_in_except": ["try:", "    import fastpath", "except ImportError:", "    try:", "        import slowpath", "    finally:"],
+    "except_in_finally": ["try:", "    import fastpath", "finally:", "    try:", "        import slowpath", "    except ImportError:"],
+    "except_in_with": ["with guard():", "    try:", "        import fastpath", "    except ImportError:"],
+    "except_in_def": ["def install(registry):", "    try:", "        import fastpath", "    except ImportError:"],
+    "except_in_loop_else": ["for name in os.listdir('.'):", "    pass", "else:", "    try:", "        import fastpath", "    except ImportError:"],
     "tryelse": ["try:", "    import fastpath", "except ImportError:", "    pass", "else:"],
     "trybody": None,   # try: <copy> / except ImportError: pass
     "with": ["with guard():"],
     "ifelse": ["if os.name == 'nt':", "    pass", "else:"],
 }
-HANDLER_WRAPS = ("except", "finally")
+HANDLER_WRAPS = ("except", "finally", "exceptstar", "except2", "finally_in_except", "except_in_finally", "except_in_with", "except_in_def",
+                 "except_in_loop_else")
 
 
 def wrap_lines(lines, wrap):
     """(header lines, indented lines, trailer lines) of a fragment nested in the compound statement `wrap`."""
-    body = [("    " + l if l.strip() else l) for l in lines]
     if wrap == "trybody":
-        return ["try:"], body, ["except ImportError:", "    pass"]
-    return list(WRAPS[wrap]), body, []
+        return ["try:"], [("    " + l if l.strip() else l) for l in lines], ["except ImportError:", "    pass"]
+    head = list(WRAPS[wrap])
+    pad = " " * (len(head[-1]) - len(head[-1].lstrip()) + 4)
+    return head, [(pad + l if l.strip() else l) for l in lines], []
 
 
 def side_rng(rng):
